@@ -19,22 +19,60 @@ SCALES = [1.0, 0.5, 2.0 ** -10, 1024.0]
 
 
 class FakeDeme:
+    """stand-in for a deme with the read-only surface of AbstractDeme a filter may legitimately look at"""
+
     def __init__(self, id, level, active=True, centroid=None, seed=None):
         self.id = id
         self.level = level
         self._level = level
         self.is_active = active
+        self._active = active
+        self._hibernating = False
         self.children = []
+        self._children = self.children
         self.centroid = centroid
+        self.mean = centroid
         self._sprout_seed = seed
+        self.started_at = 0
+        self._started_at = 0
+        self.metaepoch_count = 1
+        self.current_iteration = 1
+        self.n_evaluations = 0
+        self.name = f"FakeDeme {id}"
 
     def __repr__(self):
         return f"FakeDeme({self.id})"
 
 
 class FakeTree:
+    """stand-in for a DemeTree with its read-only surface (levels, height, root, counters, the deme listings)"""
+    _count = 0
+
     def __init__(self, levels):
         self.levels = levels
+        self._levels = levels
+        self.height = len(levels)
+        self.root = levels[0][0]
+        FakeTree._count += 1
+        self.metaepoch_count = 3 + FakeTree._count % 5
+        self.n_evaluations = 0
+        self.config = None
+
+    @property
+    def all_demes(self):
+        return [(i, d) for i, lv in enumerate(self.levels) for d in lv]
+
+    @property
+    def active_demes(self):
+        return [(i, d) for i, d in self.all_demes if d.is_active]
+
+    @property
+    def active_non_leaves(self):
+        return [(i, d) for i, d in self.active_demes if i < self.height - 1]
+
+    @property
+    def leaves(self):
+        return list(self.levels[-1])
 
 
 def key(i):
